@@ -314,6 +314,34 @@ Proof.
     injection Hy as <-. reflexivity.
 Qed.
 
+(* when the map's choice among the agreeing lists falls on the honest peer,
+   the list returned is the complete true one - whatever shorter (correct)
+   lists other peers have served *)
+Lemma resolve_choice s d cache bans l0 :
+  linv s -> hon_hdrs H fh p c tfilt s d ->
+  peer_hard_bad (c_hard c) (tcps (abl (l_a s)) (tipH s)) = false ->
+  eff_phase s <> PTip -> INTERVAL <= tipH s ->
+  snd (lists_of c s (tipH s) (tipX s) d) = cache ->
+  (forall l, In (p, l) cache <-> l = tcps (abl (l_a s)) (tipH s)) ->
+  resolve_of H c s (tipH s) (tipX s) d = (bans, Some l0) -> d_hint d = p ->
+  l0 = tcps (abl (l_a s)) (tipH s).
+Proof.
+  intros Hinv Hhd Hhard Hph Ht Hsnd Hiff ER Hhint.
+  pose proof Hinv as [[Hnd Hlen] Hpar Hhead Htrue Hgen Hnb Hcb Hcache Hleg Hcp Hphase].
+  set (a := l_a s) in *. set (bl := abl a) in *.
+  assert (HtH : tipH s = zlen bl - 1) by reflexivity.
+  pose proof ER as ER0. unfold resolve_of in ER0. rewrite Hsnd in ER0. fold a in ER0.
+  set (tc := tcps bl (tipH s)) in *.
+  assert (Htcl : zlen tc = tipH s / INTERVAL) by (apply tcps_length; lia).
+  destruct (cap_honest (tipH s) cache tc Hiff Htcl ltac:(lia)) as (Hin & Huniq & Hlens).
+  assert (Hhs : honest_serves_lt H (c_hard c) (aview a) (d_env d) (onlyc (l_conn s) r_peer (d_raws d))
+                  (cap (tipH s) cache) p tc tfilt).
+  { rewrite <- Hsnd. apply hon_serves; done. }
+  destruct (resolve_honest_wins_lt H (c_hard c) (aview a) (d_env d) _ (d_hint d) _ p tc tfilt bans _
+              Hin Huniq Hhard Hlens Hhs ER0) as (_ & _ & _ & Hch).
+  by apply Hch.
+Qed.
+
 (* ---------- the ghost flag ---------- *)
 Lemma attempt_with_flag s lastH lastX d refetch cache cst cbl flag s' out :
   attempt_with H c s lastH lastX d refetch cache cst cbl flag = (s', out) -> l_flag s' = flag.
